@@ -13,20 +13,9 @@
 #include <Eigen/Dense>
 #include <limits>
 #include <set>
-#include <new>
 #include "vf.hpp"
 #include "mk.hpp"
 #include "C03_fam.hpp"
-
-// zero-filled heap: ruge_stuben::connect reads S.val of rows without a negative off-diagonal entry without
-// having written it (coarsening/ruge_stuben.hpp:281,293-296,305); such rows occur on coarse levels.  Outside this
-// property; the fill makes the runs deterministic (see C03).
-void *operator new(std::size_t n) { void *p = std::calloc(1, n ? n : 1); if (!p) throw std::bad_alloc(); return p; }
-void *operator new[](std::size_t n) { void *p = std::calloc(1, n ? n : 1); if (!p) throw std::bad_alloc(); return p; }
-void operator delete(void *p) noexcept { std::free(p); }
-void operator delete[](void *p) noexcept { std::free(p); }
-void operator delete(void *p, std::size_t) noexcept { std::free(p); }
-void operator delete[](void *p, std::size_t) noexcept { std::free(p); }
 
 // C02_BLOCK = b > 1: the same harness on b x b block values (builtin<static_matrix<double,b,b>>); the oracles work on
 // the scalar expansion.  C02_THREADS = t > 1: OpenMP teams of t fibers (parallel paths of gauss_seidel / ilu_solve).
@@ -235,7 +224,12 @@ static void run_case(const std::string &key, const MatInfo &m, const Cfg &c, boo
     do_apply(*amg, f0, x_first);
     Mat B = extract_B(*amg, n);
     bool finite = B.allFinite();
-    if (!finite) { vf::count(std::string("nonfinite_B:") + coars_names[c.ci] + ":" + rel); }
+    if (!finite) {
+        vf::count(std::string("nonfinite_B:") + coars_names[c.ci] + ":" + rel);
+        // B with NaN/Inf entries is certainly not the SPD operator the property promises on this matrix class
+        if (m.dd_mmatrix_spd && c.ri < NSYM_RELAX)
+            fail(std::string("spd.finite_operator:") + coars_names[c.ci], vf::KS() << "B = [apply(e_j)] has non-finite entries (levels " << nlev << "); A = " << (m.d.m <= 8 ? mk::show(m.d) : m.id));
+    }
     do_apply(*amg, f0, x);
     if (!bits_equal(x, x_first)) fail("history.after_other_applications", "apply(ramp) after n other applications differs from the first application on the fresh hierarchy");
     {
@@ -398,7 +392,7 @@ static std::vector<MatInfo> grid_matrices() {
 
 // reduced spaces of the variant units
 //   block unit   : the 7 quick grids (thorough: plus 8x8), graphs n <= 4, 1-D stripes n <= 6
-//   threads unit : relaxations with a parallel code path (gauss_seidel, ilu0, iluk, ilup, ilut) + spai0, 4 grids,
+//   threads unit : relaxations with a parallel code path (gauss_seidel, ilu0, iluk, ilup, ilut) + spai0, the 7 quick grids,
 //                  level settings {ce1_direct, ce2_smooth}, npre,npost in {1,2} (thorough {1,2,3}), pre_cycles 1
 static bool variant_unit() { return C02_BLOCK > 1 || C02_THREADS > 1; }
 static bool keep_cfg(const Cfg &c) {
@@ -418,7 +412,7 @@ static void run_grids() {
         int n = m.d.m;
         size_t my = idx++;
         if (C02_BLOCK > 1 && my >= 7 && m.id != "g8x8s0") continue;
-        if (C02_THREADS > 1 && !(my == 0 || my == 2 || my == 3 || (vf::thorough() && my < 7))) continue;
+        if (C02_THREADS > 1 && my >= 7) continue;
         for (int ci = 0; ci < 4; ++ci) for (int ri = 0; ri < 9; ++ri) for (int lv = 0; lv < 5; ++lv)
         for (unsigned nc = 1; nc <= 2; ++nc) for (unsigned pre = 1; pre <= 3; ++pre) for (unsigned post = 1; post <= 3; ++post) for (unsigned pc = 1; pc <= 2; ++pc) {
             Cfg c{ci, ri, lv, nc, pre, post, pc};
@@ -467,6 +461,27 @@ static void run_graphs() {
     }
 }
 
+// weak-link clusters: every connected graph on 3 and 4 nodes with edge weights from {1, 100} (all assignments), unit
+// shift on node 0: strongly coupled clusters attached by weak edges (nearly singular diagonal blocks)
+static void run_weaklinks() {
+    for (int n = 3; n <= 4; ++n) {
+        int np = fam::npairs(n);
+        uint64_t total = 1; for (int k = 0; k < np; ++k) total *= 3;
+        for (uint64_t code = 0; code < total; ++code) {
+            if (!vf::take_group()) continue;
+            DD d(n, n); uint64_t c = code; int k = 0;
+            for (int i = 0; i < n; ++i) for (int j = i + 1; j < n; ++j, ++k) {
+                int w = c % 3; c /= 3;
+                if (w) { d.st(i, j) = d.st(j, i) = 1; d(i, j) = d(j, i) = (w == 1 ? -1.0 : -100.0); }
+            }
+            for (int i = 0; i < n; ++i) { double sum = (i == 0 ? 1 : 0); for (int j = 0; j < n; ++j) if (j != i && d.st(i, j)) sum -= d(i, j); d.st(i, i) = 1; d(i, i) = sum; }
+            if (!fam::connected(d)) continue;
+            small_matrix_cases("wl", prepare(vf::KS() << "wl" << n << "c" << code, expand_block(d)));
+        }
+        vf::space(vf::KS() << "weak-link graph Laplacians: every connected graph on " << n << " nodes x every edge weight assignment from {1,100} x configuration " << (vf::quick() ? "star" : "full product"));
+    }
+}
+
 // 1-D diffusion with every coefficient stripe mask, contrast 9 and 99 (nearly decoupled / nearly singular blocks),
 // n = 3..8 (thorough ..10); 2-D 3x3 .. 4x4 with every stripe mask in thorough
 static void run_stripes() {
@@ -501,7 +516,10 @@ int main(int argc, char **argv) {
     vf::sample_str("grid case: 5x5 diffusion, coefficient 9 in the x-stripes {1,2}: smoothed_aggregation + gauss_seidel, coarse_enough=1, ncycle=2, npre=npost=2, pre_cycles=1");
     vf::sample_str("graph case: A = " + mk::show(fam::sym_pattern(4, 0x2d, 0)) + " (minus 1 on the diagonal of nodes 1..3)");
     if (vf::section("grid")) run_grids();
-    if (vf::section("graph")) run_graphs();
-    if (vf::section("g1d") || vf::section("g2d")) run_stripes();
+    if (C02_THREADS == 1) {     // the fiber teams make every parallel region ~50x slower: grids only in the threads unit
+        if (vf::section("graph")) run_graphs();
+        if (vf::section("g1d") || vf::section("g2d")) run_stripes();
+        if (vf::section("wl")) run_weaklinks();
+    }
     return vf::finish();
 }
